@@ -280,6 +280,37 @@ func VarintAttacks(d []byte) [][]byte {
 	return out
 }
 
+// KeyAttacks re-encodes every top-level field key k as the shortest varint of k + m*2^32 (5..10 bytes): a decoder that
+// narrows keys to 32 bits before checking the field number accepts these non-canonical wire forms.
+func KeyAttacks(d []byte) [][]byte {
+	var out [][]byte
+	i := 0
+	for count := 0; i < len(d) && count < 8; count++ {
+		k, ks := uvar(d[i:])
+		if ks <= 0 {
+			break
+		}
+		for _, m := range []uint64{1, 2, 1 << 31, 1<<32 - 1} {
+			w := k + m<<32
+			if w>>32 != m { // overflow
+				continue
+			}
+			out = append(out, append(append(append([]byte{}, d[:i]...), cx.Uvarint(w)...), d[i+ks:]...))
+		}
+		vpos := i + ks
+		v, vs := uvar(d[vpos:])
+		if vs <= 0 {
+			break
+		}
+		if d[i]&7 == 2 {
+			i = vpos + vs + int(v)
+		} else {
+			i = vpos + vs
+		}
+	}
+	return out
+}
+
 func uvar(b []byte) (uint64, int) {
 	var x uint64
 	var s uint
